@@ -225,6 +225,37 @@ fn scenario(p: &TxwParams, faults: bool, rep: &Report) -> Result<(), String> {
         }
     }
 
+    // a statement answered with the pool error was refused: it must not be executed later either
+    // (e.g. flushed to a server together with the client's next batch)
+    {
+        let mut refused: std::collections::HashSet<String> = Default::default();
+        for tr in &traces {
+            for txn in &tr.txns {
+                for st in &txn.steps {
+                    if let Outcome::PoolerError(m) = &st.outcome {
+                        if m.contains("could not get connection from the pool") {
+                            refused.insert(st.qid.clone());
+                        }
+                    }
+                }
+            }
+        }
+        rep.count("statements_refused_with_pool_error", refused.len() as u64);
+        let mut reported = false;
+        for e in cell.log.snapshot() {
+            if let Ev::MockMsg { qid: Some(q), b, sid, .. } = &e.ev {
+                if refused.contains(q) && !reported {
+                    reported = true;
+                    rep.violation(
+                        &format!("C04|statement_refused_with_pool_error_reached_a_server_later|mode={}", p.mode),
+                        &format!("statement {} was answered \"could not get connection from the pool\" and later arrived at {} sid={}; {}", q, cell.mocks[*b].label, sid, p.describe()),
+                        json!({"params": p.describe(), "seed": p.seed}),
+                    );
+                }
+            }
+        }
+    }
+
     // ---- (a2) clients that end a transaction in an unusual way and then stay connected, idle:
     // their server connection must be back in the pool (nothing marked in use, full capacity)
     if p.mode == "transaction" {
